@@ -1,0 +1,12 @@
+//go:build verif
+
+package loadbalance
+
+import "sync"
+
+// VerifReset forgets the consistent-hash ring and the round-robin position.
+func VerifReset() {
+	once = sync.Once{}
+	consistentInstance = nil
+	sequence = 0
+}
